@@ -827,6 +827,15 @@ def check_bubbles(ctx, top):
         ast.unparse(dom_a) in ("Ty(*self.dom)", "self.dom.downgrade()") and ast.unparse(cod_a) in ("Ty(*self.cod)", "self.cod.downgrade()")
     ctx.ob("R20.9", MONQ + ".Bubble.downgrade", okb, found=ast.unparse(res), required="Bubble(self.inside.downgrade(), Ty(*self.dom), Ty(*self.cod)): the downgraded bubble keeps the declared domain and codomain "
            "(they may differ from those of the inside)", mod=MONQ, node=bd, sig="bubble-downgrade")
+    xd = m.func(MONQ + ".Box.downgrade")
+    ctx.analysed(MONQ + ".Box.downgrade")
+    shape.match_stmts(ctx, "R20.9", MONQ + ".Box.downgrade", [s for s in shape.expand_tuple_assigns(xd.body) if isinstance(s, (ast.Assign, ast.Return))],
+                      ["box = Box.__new__(Box)", "dom = self.dom.downgrade()", "cod = self.cod.downgrade()", "box._dom = dom", "box._cod = cod", "box._boxes = [box]", "layer = Layer(box._dom[0:0], box, box._dom[0:0])",
+                       "box._layers = cat.Arrow(dom, cod, [layer], _scan=False)", "return box"], mod=MONQ, node=xd, sig="box-downgrade", exact=True,
+                      required="a FRESH plain box (the drawing attributes are written onto it, not onto the caller's box) carrying the same attributes, with both types downgraded and itself as its only box / layer")
+    cp = next((s for s in xd.body if isinstance(s, ast.For)), None)
+    okc = cp is not None and ast.unparse(cp.iter) == "self.__dict__.items()" and len(cp.body) == 1 and ast.unparse(cp.body[0]) == "setattr(box, %s, %s)" % tuple(t.id for t in cp.target.elts)
+    ctx.ob("R20.9", MONQ + ".Box.downgrade:attributes", okc, found=ast.unparse(cp)[:90] if cp is not None else None, required="every attribute of the box is copied onto the fresh one", mod=MONQ, node=xd, sig="box-downgrade-attrs")
     dd = m.func(MONQ + ".Diagram.downgrade")
     rdd = next((s.value for s in dd.body if isinstance(s, ast.Return)), None)
     shape.match(ctx, "R20.9", MONQ + ".Diagram.downgrade", rdd, "Diagram(Ty(*self.dom), Ty(*self.cod), [box.downgrade() for box in self.boxes], self.offsets)", {}, body=dd.body, mod=MONQ, node=dd,
